@@ -57,7 +57,8 @@ CFG = dict(
          "transport) compared with reply_of of Model/Proxy.v; unary calls of a raw peer with 1..3 crafted hops in the route record through "
          "the real Proxy to the real Server and back; end-to-end resets: a stream "
          "cancelled by the caller cancels the handler, a body for an unknown stream and undecodable metadata are answered by RST_STREAM, through "
-         "the proxy as on a direct connection; attach race: AddClient(X) at the moment the first envelope for X is being routed - placed deterministically from a zerolog hook "
+         "the proxy as on a direct connection; overflow race (PROBABILISTIC): 60 rounds (thorough 1500) x GOMAXPROCS 1/4/16 of one source bursting 24..53 envelopes at a merely slow "
+         "consumer, free-running, judged by the delivery predicates; attach race: AddClient(X) at the moment the first envelope for X is being routed - placed deterministically from a zerolog hook "
          "inside the forwarding loop (40 rounds x GOMAXPROCS 1/4/16; thorough 400) and, as a PROBABILISTIC search, by free-running goroutines "
          "released by one barrier with seeded Gosched noise under GOMAXPROCS 1/4/16 for a fixed time (quick 3 s each: some 3000-6000 rounds "
          "each; thorough 60 s each) - judged by the predicate alone; each rig runs as 8 shard processes; a scenario in which the proxy holds a "
